@@ -120,7 +120,7 @@ func litmus() {
 		}
 	}
 	o, d, _ = outcomesOf(pipe(false), true)
-	ctx.Guard(d == 0 && strings.Join(o, "|") == "read1,read2,wrote=2,false", "litmus L4 (pipe drain): outcomes %v deadlocks %d", o, d)
+	ctx.Guard(d == 0 && strings.Join(o, "|") == "read1,read2,wrote=2,false|read1,wrote=2,false,read2", "litmus L4 (pipe drain): outcomes %v deadlocks %d", o, d)
 	o, d, _ = outcomesOf(pipe(true), true)
 	ctx.Guard(d == 0 && strings.Join(o, "|") == "read1,wrote=1,true", "litmus L4 (pipe close): outcomes %v deadlocks %d", o, d)
 	// L5: select among two ready cases takes either
